@@ -487,6 +487,97 @@ func init() {
 			ex.unsupported("strings.ReplaceAll on symbolic operands")
 			return nil
 		},
+		"strings.Count": func(ex *Exec, fr *frame, fn *ssa.Function, args []Value, pos tokenPos) Value {
+			s, sub := asTerm(args[0]), asTerm(args[1])
+			if s.op == "c" && sub.op == "c" {
+				return mkInt(int64(strings.Count(s.s, sub.s)))
+			}
+			ex.unsupported("strings.Count on symbolic strings")
+			return nil
+		},
+		"strings.LastIndex": func(ex *Exec, fr *frame, fn *ssa.Function, args []Value, pos tokenPos) Value {
+			s, sub := asTerm(args[0]), asTerm(args[1])
+			if s.op == "c" && sub.op == "c" {
+				return mkInt(int64(strings.LastIndex(s.s, sub.s)))
+			}
+			ex.unsupported("strings.LastIndex on symbolic strings")
+			return nil
+		},
+		"strings.IndexByte": func(ex *Exec, fr *frame, fn *ssa.Function, args []Value, pos tokenPos) Value {
+			s, c := asTerm(args[0]), asTerm(args[1])
+			if cv, ok := c.constInt(); ok {
+				return mkIndexOf(s, mkStr(string([]byte{byte(cv)})), mkInt(0))
+			}
+			ex.unsupported("strings.IndexByte on symbolic byte")
+			return nil
+		},
+		"strings.Repeat": func(ex *Exec, fr *frame, fn *ssa.Function, args []Value, pos tokenPos) Value {
+			s, n := asTerm(args[0]), asTerm(args[1])
+			if nv, ok := n.constInt(); ok && s.op == "c" && nv >= 0 && nv < 10000 {
+				return mkStr(strings.Repeat(s.s, int(nv)))
+			}
+			ex.unsupported("strings.Repeat on symbolic operands")
+			return nil
+		},
+		"strings.SplitN": func(ex *Exec, fr *frame, fn *ssa.Function, args []Value, pos tokenPos) Value {
+			s, sep, n := asTerm(args[0]), asTerm(args[1]), asTerm(args[2])
+			if nv, ok := n.constInt(); ok && s.op == "c" && sep.op == "c" {
+				parts := strings.SplitN(s.s, sep.s, int(nv))
+				vs := make([]Value, len(parts))
+				for k, p := range parts {
+					vs[k] = mkStr(p)
+				}
+				return ex.mkSlice(types.Typ[types.String], vs)
+			}
+			ex.unsupported("strings.SplitN on symbolic operands")
+			return nil
+		},
+		"strings.Fields": func(ex *Exec, fr *frame, fn *ssa.Function, args []Value, pos tokenPos) Value {
+			s := asTerm(args[0])
+			if s.op == "c" {
+				parts := strings.Fields(s.s)
+				vs := make([]Value, len(parts))
+				for k, p := range parts {
+					vs[k] = mkStr(p)
+				}
+				return ex.mkSlice(types.Typ[types.String], vs)
+			}
+			ex.unsupported("strings.Fields on symbolic string")
+			return nil
+		},
+		"strings.Trim": func(ex *Exec, fr *frame, fn *ssa.Function, args []Value, pos tokenPos) Value {
+			s, c := asTerm(args[0]), asTerm(args[1])
+			if s.op == "c" && c.op == "c" {
+				return mkStr(strings.Trim(s.s, c.s))
+			}
+			ex.unsupported("strings.Trim on symbolic strings")
+			return nil
+		},
+		"strings.TrimLeft": func(ex *Exec, fr *frame, fn *ssa.Function, args []Value, pos tokenPos) Value {
+			s, c := asTerm(args[0]), asTerm(args[1])
+			if s.op == "c" && c.op == "c" {
+				return mkStr(strings.TrimLeft(s.s, c.s))
+			}
+			ex.unsupported("strings.TrimLeft on symbolic strings")
+			return nil
+		},
+		"strings.TrimRight": func(ex *Exec, fr *frame, fn *ssa.Function, args []Value, pos tokenPos) Value {
+			s, c := asTerm(args[0]), asTerm(args[1])
+			if s.op == "c" && c.op == "c" {
+				return mkStr(strings.TrimRight(s.s, c.s))
+			}
+			ex.unsupported("strings.TrimRight on symbolic strings")
+			return nil
+		},
+		"(*k8s.io/apimachinery/pkg/util/validation/field.Path).String": func(ex *Exec, fr *frame, fn *ssa.Function, args []Value, pos tokenPos) Value {
+			return ex.fresh("fieldpath", SStr)
+		},
+		"(*k8s.io/apimachinery/pkg/util/validation/field.Error).Error": func(ex *Exec, fr *frame, fn *ssa.Function, args []Value, pos tokenPos) Value {
+			return ex.fresh("fielderr", SStr)
+		},
+		"(*k8s.io/apimachinery/pkg/util/validation/field.Error).ErrorBody": func(ex *Exec, fr *frame, fn *ssa.Function, args []Value, pos tokenPos) Value {
+			return ex.fresh("fielderr", SStr)
+		},
 		"strings.ToLower":   icStrConcrete1(strings.ToLower),
 		"strings.ToUpper":   icStrConcrete1(strings.ToUpper),
 		"strings.TrimSpace": icStrConcrete1(strings.TrimSpace),
@@ -788,7 +879,7 @@ func init() {
 }
 
 var deniedPkgs = map[string]bool{"time": true, "reflect": true, "unsafe": true, "runtime": true, "syscall": true, "os": true, "net": true, "net/http": true,
-	"encoding/json": true, "os/exec": true, "io/ioutil": true, "regexp": true, "math/rand": true, "sync/atomic": true, "encoding/hex": true,
+	"encoding/json": true, "bytes": true, "strings": true, "strconv": true, "unicode/utf8": true, "unicode": true, "os/exec": true, "io/ioutil": true, "regexp": true, "math/rand": true, "sync/atomic": true, "encoding/hex": true,
 	"github.com/davecgh/go-spew/spew": true, "github.com/evanphx/json-patch": true, "github.com/yuin/gopher-lua": true, "sigs.k8s.io/yaml": true,
 	"k8s.io/apimachinery/pkg/util/json": true, "encoding/base64": true}
 
